@@ -173,6 +173,8 @@ CfgRec == [kind |-> KindOf(cfg), maxalign |-> MaxAlignOf(cfg), reserved |-> Rese
 CheckArena(a, op, x, s, s2) ==
   IF ~s.ok \/ s.dead \/ x.res.k \in {"dead", "noarena", "skip"} THEN TRUE
   ELSE IF x.res.k = "panic" THEN (IF s.mode = "ro" THEN TRUE ELSE Viol(PanicProp(op), "NoPanic", a, FALSE))
+  \* a reopen that failed leaves no arena to observe: reported, and the arena is dead from here on (NextArena0)
+  ELSE IF op.k = "reopen" /\ x.res.k # "ok" THEN Report(a, ReopenPreds(s, op, x))
   ELSE
   LET c == CfgRec r == x.res o == x.obs IN
   /\ IF op.k = "reopen" THEN Report(a, ReopenPreds(s, op, x))
@@ -211,8 +213,10 @@ ComparePair(p, e) ==
      \/ xi.res.k \in {"panic", "dead"} \/ xj.res.k \in {"panic", "dead"} \/ xi.res.k = "na" \/ xj.res.k = "na"
   THEN TRUE
   ELSE /\ Viol(p[3], "SameResult", i, ResEq(xi.res, xj.res))
-       /\ Viol(p[3], "SameObservation", i, SameObs(xi.obs, xj.obs))
-       /\ Viol(p[3], "SameBytes", i, p[4] => xi.mem = xj.mem)
+       \* (a failed reopen leaves nothing to observe)
+       /\ (Has(xi, "obs") /\ Has(xj, "obs")) =>
+            /\ Viol(p[3], "SameObservation", i, SameObs(xi.obs, xj.obs))
+            /\ Viol(p[3], "SameBytes", i, p[4] => xi.mem = xj.mem)
 
 \* ------------------------------------------------------------------ the trace machine
 Init == l = 1 /\ S = <<>> /\ cfg = [none |-> TRUE]
